@@ -14,8 +14,10 @@ import traceback
 from typing import Any, Callable, Dict, Iterable, List, Optional
 
 VERIF = os.path.dirname(os.path.dirname(os.path.abspath(__file__)))
-EVIDENCE_DIR = os.path.join(VERIF, "evidence")
-REPLAY_DIR = os.path.join(VERIF, "replays")
+# runs against a scratch tree (tools/mut.py, tools/seed.py) redirect their evidence and replay
+# files so that /verif/evidence always describes /repo
+EVIDENCE_DIR = os.environ.get("VERIF_EVIDENCE_DIR") or os.path.join(VERIF, "evidence")
+REPLAY_DIR = os.environ.get("VERIF_REPLAY_DIR") or os.path.join(VERIF, "replays")
 KNOWN_FINDINGS = os.path.join(VERIF, "known_findings.json")
 EVIDENCE_SCHEMA = "/root/.vp/EVIDENCE.schema.json"
 
